@@ -1,5 +1,108 @@
 package main
 
+// Counterexample replay against the real code: a Go test taken from
+// /verif/replay/templates is injected into the package with `go test -overlay`
+// (nothing is written to /repo) and run against the current working tree.
+
+import (
+	"bytes"
+	"context"
+	"encoding/json"
+	"fmt"
+	"os"
+	"os/exec"
+	"path/filepath"
+	"regexp"
+	"strings"
+	"time"
+)
+
+// modelValues extracts "(define-fun |name| () Sort value)" entries of a z3
+// model for scalar values.
+func modelValues(model string) map[string]string {
+	out := map[string]string{}
+	re := regexp.MustCompile(`\(define-fun (\|[^|]*\||[^ ]+) \(\) (Int|Bool)\s+([^\n]*)\)`)
+	for _, m := range re.FindAllStringSubmatch(model, -1) {
+		name := strings.Trim(m[1], "|")
+		val := strings.TrimSpace(m[3])
+		val = strings.TrimSuffix(val, ")")
+		if strings.HasPrefix(val, "(- ") {
+			val = "-" + strings.TrimSuffix(strings.TrimPrefix(val, "(- "), ")")
+		}
+		out[name] = strings.TrimSpace(val)
+	}
+	// slices: (define-fun |p:x| () Slice (mk-slice b o l c))
+	re2 := regexp.MustCompile(`\(define-fun (\|[^|]*\||[^ ]+) \(\) Slice\s+\(mk-slice ([^)]*)\)\)`)
+	for _, m := range re2.FindAllStringSubmatch(model, -1) {
+		name := strings.Trim(m[1], "|")
+		f := strings.Fields(m[2])
+		if len(f) == 4 {
+			out[name+".len"] = f[2]
+			out[name+".cap"] = f[3]
+		}
+	}
+	return out
+}
+
 func replayObligation(verif, repo string, ps *PropSpec, o *Obligation) (string, map[string]interface{}) {
-	return "no-input", map[string]interface{}{"replay": "no replay template for this obligation"}
+	var tmpl string
+	for pat, t := range ps.Replays {
+		re, err := regexp.Compile(pat)
+		if err != nil {
+			continue
+		}
+		if re.MatchString(o.Name) {
+			tmpl = t
+			break
+		}
+	}
+	if tmpl == "" {
+		return "no-input", map[string]interface{}{"replay": "no replay template for this obligation"}
+	}
+	src, err := os.ReadFile(filepath.Join(verif, "replay", "templates", tmpl))
+	if err != nil {
+		return "no-input", map[string]interface{}{"replay": "template missing: " + err.Error()}
+	}
+	text := string(src)
+	pkgdir := ""
+	for _, l := range strings.Split(text, "\n") {
+		if strings.HasPrefix(l, "// pkgdir:") {
+			pkgdir = strings.TrimSpace(strings.TrimPrefix(l, "// pkgdir:"))
+			break
+		}
+	}
+	if pkgdir == "" {
+		return "no-input", map[string]interface{}{"replay": "template has no pkgdir"}
+	}
+	vals := modelValues(o.Model)
+	mj, _ := json.Marshal(vals)
+	text = strings.ReplaceAll(text, "{{MODEL_JSON}}", strings.ReplaceAll(string(mj), "`", "'"))
+	dir, err := os.MkdirTemp("/var/tmp", "govc-replay-")
+	if err != nil {
+		return "no-input", map[string]interface{}{"replay": err.Error()}
+	}
+	defer os.RemoveAll(dir)
+	testFile := filepath.Join(dir, "zz_replay_test.go")
+	os.WriteFile(testFile, []byte(text), 0o644)
+	ov := map[string]interface{}{"Replace": map[string]string{filepath.Join(repo, pkgdir, "zz_replay_test.go"): testFile}}
+	ovj, _ := json.Marshal(ov)
+	ovFile := filepath.Join(dir, "overlay.json")
+	os.WriteFile(ovFile, ovj, 0o644)
+	ctx, cancel := context.WithTimeout(context.Background(), 150*time.Second)
+	defer cancel()
+	cmd := exec.CommandContext(ctx, "go", "test", "-overlay", ovFile, "-vet=off", "-timeout", "90s", "-count=1", "-run", "^TestReplay", "-v", "./"+pkgdir)
+	cmd.Dir = repo
+	cmd.Env = append(os.Environ(), "GOFLAGS=-mod=mod", "GOPROXY=off", "GOTOOLCHAIN=local", "GOSUMDB=off", "MUTAGEN_DATA_DIRECTORY="+dir)
+	var out bytes.Buffer
+	cmd.Stdout, cmd.Stderr = &out, &out
+	_ = cmd.Run()
+	output := out.String()
+	verdict := "not-reproduced"
+	if strings.Contains(output, "REPLAY-CONFIRMED") {
+		verdict = "confirmed"
+	} else if !strings.Contains(output, "REPLAY-NOT-REPRODUCED") {
+		verdict = "no-input"
+	}
+	return verdict, map[string]interface{}{"template": tmpl, "model_values": vals, "go_test_source": text, "go_test_output": truncate(output, 6000),
+		"replay_cmd": fmt.Sprintf("go test -overlay <ov> -vet=off -run ^TestReplay ./%s", pkgdir)}
 }
